@@ -202,9 +202,9 @@ def build(ev, ref, t_us, server_side=False, conn=None, queue=None, decor=None):
         exp['args'] = [('nil', None), ('int', None), ('str', None)]
     elif k == 'orphan':
         # a message on an id this history never created (the log started late): shown unresolved, still counted
-        sent, iface, oid, name = True, 'zz_q', 77, 'foo'
-        exp['target'] = 'zz_q@77?'
-        exp['orphan'] = True
+        sent, iface, oid, name = True, 'zz_q', (ev[1] if len(ev) > 1 else 77), 'foo'
+        exp['target'] = 'zz_q@%d?' % oid
+        exp['orphan'] = oid
         args = [['int', 1]]
         exp['args'] = [('int', None)]
     elif k == 'reject':
@@ -244,7 +244,7 @@ def check_line(rec, exp):
     from .. import outparse
     bad = []
     if exp.get('orphan'):
-        if rec['obj']['id'] != 77 or rec['obj']['resolved'] or rec['name'] != exp['name']:
+        if rec['obj']['id'] != exp['orphan'] or rec['obj']['resolved'] or rec['name'] != exp['name']:
             bad.append(('target', exp['target'], outparse.label(rec['obj'])))
         return bad
     if outparse.label(rec['obj']) != exp['target'] or not rec['obj']['resolved']:
